@@ -173,6 +173,55 @@ theorem hitRun_frame (env : Env) : ∀ (f : Nat) (p : Prog) (s : St) (ds : List 
     | tryCatch body k => simp only [hitRun] at hh; cases hh
     | loadOwned key k => simp only [hitRun] at hh; cases hh
 
+
+theorem St.record_out (s : St) (on : Bool) (d : Dep) : (s.record on d).out = s.out := by
+  unfold St.record; split
+  · split <;> rfl
+  · rfl
+
+/-- A tracked hit-only run sends nothing to the reloader (nothing new is registered). -/
+theorem hitRun_out (env : Env) : ∀ (f : Nat) (p : Prog) (s : St),
+    hitRun env f s p = true → (eval env f s p).1.out = s.out := by
+  intro f
+  induction f with
+  | zero => intro p s _; rfl
+  | succ f ih =>
+    intro p s hh
+    cases p with
+    | ret v => rfl
+    | fail e => rfl
+    | panic => rfl
+    | read id ext k =>
+      simp only [hitRun, Bool.and_eq_true] at hh
+      simp only [eval]
+      rw [ih _ _ hh.2]; exact St.record_out s _ _
+    | readDir id k =>
+      simp only [hitRun, Bool.and_eq_true] at hh
+      simp only [eval]
+      rw [ih _ _ hh.2]; exact St.record_out s _ _
+    | getCached key k =>
+      simp only [hitRun, Bool.and_eq_true] at hh
+      simp only [eval]
+      rw [ih _ _ hh.2]; exact St.record_out s _ _
+    | tick k =>
+      simp only [hitRun] at hh
+      simp only [eval]
+      rw [ih _ _ hh]
+    | load key k =>
+      simp only [hitRun, Bool.and_eq_true] at hh
+      obtain ⟨_, hh⟩ := hh
+      simp only [eval]
+      cases hl : (s.record (recordsAsset (env.types key.ty).hot env.hasReloader) (.asset key)).lookup key with
+      | none => rw [hl] at hh; cases hh
+      | some c =>
+        rw [hl] at hh
+        simp only [] at hh ⊢
+        rw [ih _ _ hh]; exact St.record_out s _ _
+    | noRecord body k => simp only [hitRun] at hh; cases hh
+    | onThread body k => simp only [hitRun] at hh; cases hh
+    | tryCatch body k => simp only [hitRun] at hh; cases hh
+    | loadOwned key k => simp only [hitRun] at hh; cases hh
+
 /-! ## Read-set determinacy -/
 
 /-- `env'` runs the same loaders as `env`: same type table, same reloader flag, same answers of the
@@ -353,6 +402,10 @@ theorem reloadHit_map {env : Env} {fuel : Nat} {s : St} {key : Key} (h : reloadH
 theorem reloadHit_lookup {env : Env} {fuel : Nat} {s : St} {key : Key} (h : reloadHit env fuel s key = true) (k : Key) :
     (reloadEval env fuel s key).1.lookup k = s.lookup k :=
   St.lookup_congr (reloadHit_map h) k
+
+theorem reloadHit_out {env : Env} {fuel : Nat} {s : St} {key : Key} (h : reloadHit env fuel s key = true) :
+    (reloadEval env fuel s key).1.out = s.out :=
+  hitRun_out env fuel _ s.fresh h
 
 /-- **Read-set determinacy of a reload.** If re-evaluating `key` under `(env, s)` is a tracked
 hit-only run and `(env', t)` agrees with `(env, s)` on everything it records, then re-evaluating
